@@ -42,7 +42,7 @@ def run(cmd, cwd=None, env=None, timeout=None, stdout=None):
 # ----------------------------------------------------------------------------------- build
 def build_harness():
     """cargo build --offline: always from /repo's current working tree (path dependencies)."""
-    env = {"CARGO_NET_OFFLINE": "true"}
+    env = {"CARGO_NET_OFFLINE": "true", "CARGO_TARGET_DIR": os.path.join(HARNESS, "target")}
     rc, out, dt = run(["cargo", "build", "--release", "--offline"], cwd=HARNESS, env=env, timeout=1500)
     if rc != 0:
         log(out[-4000:])
@@ -83,7 +83,7 @@ def tlc(module_path, cfg_path, workdir, workers=8, extra=(), env=None, timeout=9
         e.update(env)
     if jopts:
         e["JAVA_TOOL_OPTIONS"] = jopts
-    cmd = ["java"]
+    cmd = ["java", "-DTLA-Library=" + os.path.join(ROOT, "spec", "common")]
     if heap:
         cmd += ["-Xmx" + heap]
     cmd += ["-XX:+UseParallelGC", "-cp", TLA_JAR + ":/opt/veriftools/tla/CommunityModules-deps.jar",
